@@ -34,6 +34,7 @@ def run(ctx):
     ctx.rule('R9.6', 'hand-written passes that run to the end of the list stop at the last groupable child; every matched class excludes its delimiters from _groupable_tokens', floor=1)
     KD.check_imt_shape(ctx)
     check_stack(ctx)
+    check_matching_delimiters(ctx)
     check_tables(ctx)
     check_order(ctx)
     check_capture(ctx)
@@ -164,6 +165,74 @@ def check_stack(ctx):
     ctx.rules.pop('R3.4', None)
     ctx.floors.pop('R3.4', None)
     ctx.rule('R9.2g', 'index correction of the generic joining driver _group (shared with C03)', floor=1)
+
+
+def check_matching_delimiters(ctx):
+    """Two matched kinds can share a delimiter token (END closes CASE and BEGIN).  A later matching pass scans the inside of the
+    groups of earlier kinds; if it also looks at the first/last token of such a group, it pairs its own opener with the enclosing
+    group's closer (`CASE BEGIN END END`: the Begin pass takes the Case's END), and that node no longer ends with its closing
+    token.  Sibling agreement with _group: the scan of _group_matching skips the delimiters of the list it runs on."""
+    from ..astutil import alias_map, canon_text
+    repo = ctx.repo
+    f = repo.func('sqlparse.engine.grouping._group_matching')
+    tl0 = f.params[0]
+    # shared delimiters between matched classes
+    delim = {}
+    for cname in MATCHED:
+        c = repo.cls(f'sqlparse.sql.{cname}')
+        for attr in ('M_OPEN', 'M_CLOSE'):
+            node, owner = repo.lookup_class_attr(c, attr)
+            if node is None:
+                continue
+            try:
+                v = ctx.folder.eval(node, owner.mod, None, owner)
+            except NotConst:
+                continue
+            for ttype, vals, rgx in VC._as_patterns(v):
+                for w in (vals or ()):
+                    delim.setdefault((repr(ttype), w.upper()), set()).add(cname)
+    shared = {k: sorted(v) for k, v in delim.items() if len(v) > 1}
+    ctx.info['shared_block_delimiters'] = {f'{k[0]} {k[1]}': v for k, v in shared.items()}
+    loc = f'{f.mod.relpath}:{f.node.lineno}'
+    if not shared:
+        ctx.ob('R9.1', 'shared-delimiters', loc, 'no two matched kinds share an opening or closing token', True)
+        return
+    sharing = sorted({c for v in shared.values() for c in v})
+    scans = [s for s in ast.walk(f.node) if isinstance(s, ast.For) and isinstance(s.target, ast.Tuple) and len(s.target.elts) == 2
+             and isinstance(s.iter, ast.Call) and is_name(s.iter.func, 'enumerate')]
+    ctx.need(len(scans) == 1, f'{f.short}: scan loop not found')
+    lp = scans[0]
+    tokv = lp.target.elts[1].id
+    names = [n.id for n in ast.walk(lp.iter) if isinstance(n, ast.Name) and n.id not in ('enumerate', 'list', 'tuple')]
+    tl = names[0] if names else tl0
+    amap = alias_map(f.node)
+    # locals holding (tl.tokens[0], <closing>) for the sharing classes
+    dvars = set()
+    for n in ast.walk(f.node):
+        if isinstance(n, ast.Assign) and len(n.targets) == 1 and is_name(n.targets[0]) and isinstance(n.value, ast.Tuple) and len(n.value.elts) == 2:
+            elts = [canon_text(src(e), amap) for e in n.value.elts]
+            if elts[0] == f'{tl}.tokens[0]':
+                dvars.add(n.targets[0].id)
+    gd = Guards(f.node)
+    arms = []
+    for n in own_nodes(f.node):
+        if isinstance(n, ast.Call) and isinstance(n.func, ast.Attribute) and n.func.attr in ('append', 'pop', 'group_tokens') \
+                and any(x is n for x in ast.walk(lp)):
+            if n.func.attr == 'append' and not (n.args and isinstance(n.args[0], ast.Name)):
+                continue
+            arms.append(n)
+    ok_all = bool(arms)
+    missing = []
+    for n in arms:
+        facts = [(canon_text(e, amap), pol) for e, pol in gd.facts(n) if e != '|']
+        prot = any((not pol) and any(e == f'{tokv} in {dv}' for dv in dvars) for e, pol in facts)
+        if not prot:
+            ok_all = False
+            missing.append(src(n)[:40])
+    ctx.ob('R9.1', 'scan-excludes-own-delimiters', f'{f.mod.relpath}:{lp.lineno}',
+           f'the matcher does not take the first/last token of the list it scans as opener/closer of an inner group ({", ".join(f"{k[1]} shared by {v}" for k, v in shared.items())})',
+           ok_all, f'effects {missing} are not guarded by `{tokv} not in (<first token>, <closing token>)`: in `CASE BEGIN x END END` the Begin pass, run '
+           'inside the Case group, pairs BEGIN with the END that closes the Case, so the Case node no longer ends with its closing token')
 
 
 def check_tables(ctx):
